@@ -53,6 +53,15 @@ type Case struct {
 	// DialFirst: SetDial is called before SetRoundTripper instead of after it.
 	Transport string `json:"transport,omitempty"`
 	DialFirst bool   `json:"dial_first,omitempty"`
+	// H2Config: the MITM configuration has an h2.Config (admitting no host), so
+	// every session is still HTTP/1.1. ALPN is what the client offers:
+	// "" = no ALPN extension at all, "http/1.1".
+	H2Config bool   `json:"h2_config,omitempty"`
+	ALPN     string `json:"alpn,omitempty"`
+	// TimeoutMs / GapMs: the proxy's SetTimeout and the pause before every inner
+	// request (a session in use for longer than the timeout, never idle that long).
+	TimeoutMs int `json:"timeout_ms,omitempty"`
+	GapMs     int `json:"gap_ms,omitempty"`
 }
 
 const authority = "secure.test:443"
@@ -181,13 +190,20 @@ func runOnce(c Case, T time.Duration) (v kit.Verdict) {
 		return ""
 	}}
 
-	mc, pool, err := netkit.MITM()
+	mitmConf := netkit.MITM
+	if c.H2Config {
+		mitmConf = netkit.MITMH2
+	}
+	mc, pool, err := mitmConf()
 	if err != nil {
 		return kit.Failf("C05/harness/mitm", "%v", err)
 	}
 	pb := &probe{rewrite: c.RewriteConnect}
 	p := martian.NewProxy()
 	p.SetTimeout(60 * time.Second)
+	if c.TimeoutMs > 0 {
+		p.SetTimeout(time.Duration(c.TimeoutMs) * time.Millisecond)
+	}
 	if c.DialFirst {
 		p.SetDial(dialer.Dial)
 	}
@@ -245,6 +261,9 @@ func runOnce(c Case, T time.Duration) (v kit.Verdict) {
 	var conn net.Conn = raw
 	br := bufio.NewReader(conn)
 	tlsConf := &tls.Config{RootCAs: pool, ServerName: "secure.test"}
+	if c.ALPN != "" {
+		tlsConf.NextProtos = strings.Split(c.ALPN, ",")
+	}
 	if !c.SNI {
 		// no SNI: the certificate is checked by hand against the CONNECT authority
 		tlsConf = &tls.Config{InsecureSkipVerify: true, VerifyPeerCertificate: func(raw [][]byte, _ [][]*x509.Certificate) error {
@@ -318,6 +337,7 @@ func runOnce(c Case, T time.Duration) (v kit.Verdict) {
 	var sents []sent
 	hijacked := false
 	for i, in := range c.Inner {
+		time.Sleep(time.Duration(c.GapMs) * time.Millisecond)
 		id := fmt.Sprintf("x%d", i)
 		var reqLine, hostHdr, wantHost string
 		switch in.Form {
@@ -523,6 +543,12 @@ func genCase(t *rapid.T) Case {
 	if !transparent && !c.PlainInside && rapid.IntRange(0, 4).Draw(t, "rewrite") == 0 {
 		c.RewriteConnect = true
 	}
+	if !transparent && !c.PlainInside && rapid.IntRange(0, 3).Draw(t, "h2_config") == 0 {
+		c.H2Config = true
+	}
+	if c.SNI && !c.PlainInside {
+		c.ALPN = rapid.SampledFrom([]string{"", "", "http/1.1"}).Draw(t, "alpn")
+	}
 	c.Transport = rapid.SampledFrom([]string{"", "", "", "dialtls", "dialtls", "dialcontext"}).Draw(t, "transport")
 	c.DialFirst = rapid.IntRange(0, 3).Draw(t, "dial_first") == 0
 	n := rapid.IntRange(2, 5).Draw(t, "n")
@@ -588,6 +614,15 @@ func classes(c Case) []string {
 	if c.DialFirst {
 		out = append(out, "setdial-before-setroundtripper")
 	}
+	if c.H2Config {
+		out = append(out, "h2-configured-but-not-for-this-host")
+		if c.ALPN == "" {
+			out = append(out, "h2-configured+client-without-alpn")
+		}
+	}
+	if c.TimeoutMs > 0 {
+		out = append(out, "session-in-use-longer-than-the-timeout")
+	}
 	set := map[string]bool{}
 	for _, in := range c.Inner {
 		set["form-"+in.Form] = true
@@ -616,4 +651,24 @@ func TestMITM(t *testing.T) {
 	propMITM.Check(t, kit.N(400, 800))
 }
 
-func TestReplay(t *testing.T) { kit.Replay(t, propMITM) }
+var propBusy = &kit.Prop[Case]{
+	ID: "C05", Name: "busy-session", Journal: true,
+	Rule: "a decrypted session (plain, traffic-shaped, TLS-in-TLS listener) carrying a request every 350 ms for 2.1 s under a proxy timeout of 1.2 s: never idle for as long as the timeout, every request must be served inside the session; non-trivial = always",
+	Run:  run, NonTrivial: func(Case) bool { return true }, Classes: classes,
+}
+
+func TestBusySession(t *testing.T) {
+	propBusy.Enumerate(t, func(yield func(Case) bool) {
+		for _, l := range []string{"plain", "shaped", "tls-connect"} {
+			c := Case{Listener: l, SNI: true, TimeoutMs: 1200, GapMs: 350}
+			for i := 0; i < 6; i++ {
+				c.Inner = append(c.Inner, Inner{Form: "origin"})
+			}
+			if !yield(c) {
+				return
+			}
+		}
+	})
+}
+
+func TestReplay(t *testing.T) { kit.Replay(t, propMITM, propBusy) }
